@@ -217,15 +217,36 @@ func (r *RdbReader) readFull(p []byte) error {
 }
 
 func (r *RdbReader) ReadBytesP(n int) []byte {
-	p := make([]byte, n)
-	err := r.readFull(p)
+	p, err := r.ReadBytes(n)
 	panicIfErr(err)
 	return p
 }
 
+// readChunkSize bounds how much is allocated ahead of the data actually read: a
+// damaged length field (they can claim terabytes) must end in a read error, not in an
+// allocation the runtime cannot satisfy.
+const readChunkSize = 1 << 20
+
 func (r *RdbReader) ReadBytes(n int) ([]byte, error) {
-	p := make([]byte, n)
-	return p, r.readFull(p)
+	if n < 0 {
+		return nil, errors.Errorf("invalid length : %d", n)
+	}
+	if n <= readChunkSize {
+		p := make([]byte, n)
+		return p, r.readFull(p)
+	}
+	p := make([]byte, 0, readChunkSize)
+	for len(p) < n {
+		m := n - len(p)
+		if m > readChunkSize {
+			m = readChunkSize
+		}
+		p = append(p, make([]byte, m)...)
+		if err := r.readFull(p[len(p)-m:]); err != nil {
+			return nil, err
+		}
+	}
+	return p, nil
 }
 
 func (r *RdbReader) ReadUint8P() uint8 {
